@@ -249,7 +249,9 @@ def mc_deviations(ctx, kd):
     out = {}
     for fam, kw in (("cache", dict(depth=4)),):
         cfg = ctx.path(f"mc_dev_{fam}.cfg")
-        lib.write_cfg(cfg, constants(fam, kd, **kw), "MCInit", "MCNext", invariants=[i for i in INVARIANTS if i != "Emit"])
+        # every deviation the spec names, also those whose finding is fixed by now: the clause each one breaks must break
+        lib.write_cfg(cfg, constants(fam, ["F13a", "F13b", "F13c", "F13d", "F13e"], **kw), "MCInit", "MCNext",
+                      invariants=[i for i in INVARIANTS if i != "Emit"])
         r = lib.tlc(ctx, MODULE_MC, cfg, timeout=900, expect_violation=True)
         out[fam] = r["invariant_violated"]
     ctx.cov["model_with_known_deviations_violates"] = out
